@@ -5,7 +5,7 @@ import random
 from . import tlc, render
 from .common import Scratch, seed as _seed, vlog
 
-TEMPL_FAMILIES = ["loopif", "elif", "nested", "listidx", "swapuse", "ifaug", "iftest", "opgrid", "fixgrid", "chargrid", "tupvar", "names", "constfold"]
+TEMPL_FAMILIES = ["loopif", "elif", "nested", "listidx", "swapuse", "ifaug", "iftest", "opgrid", "fixgrid", "chargrid", "tupvar", "names", "constfold", "idxvar"]
 SIGS = [1, 2, 3, 4, 5, 6, 7, 8, 9, 10, 11, 12, 13]
 CFG = ("SPECIFICATION Spec\nCONSTANTS MaxTok = %d\n MaxStack = %d\n MaxStmts = %d\n SigId = %d\n Stmts = %s\n Lean = %s\n"
        "INVARIANT Emit\nCHECK_DEADLOCK FALSE\n")
@@ -217,7 +217,7 @@ def generate(tier, sd):
     return res, gstats
 
 
-QUICK_CAPS = {"OpGrid": 180, "FixGrid": 120, "TemplGen": 450, "ProgGen-leansim": 130, "ProgGen-lean": 260, "ProgGen-bfs": 480, "ProgGen-sim": 560}
+QUICK_CAPS = {"OpGrid": 180, "FixGrid": 120, "TemplGen": 560, "ProgGen-leansim": 130, "ProgGen-lean": 260, "ProgGen-bfs": 480, "ProgGen-sim": 560}
 
 
 def programs(pid, tier, sd):
